@@ -30,6 +30,25 @@ T = {
  "C17": ("Theorems: over exact reals the last output of SMA, WMA, SD, MAD, BB is a function of the last n inputs (two histories sharing that suffix give "
          "equal outputs); Minimum exactly, for any strict total order. ROC/ER/MFI/CCI/FAST: implementation-level suffix-vs-full comparison and T1 (partial).",
          "Rocq proofs (corollaries of the refinement theorems) + bit-exact correspondence + suffix-vs-full comparison on the implementation"),
+ "C03": ("Theorems for every number type (bit-exact): RSI = 100U/(U+D) from two EMAs of gains/losses seeded 0.1; FastStochastic = formula on Minimum/Maximum "
+         "(scalar and bar paths), SlowStochastic = EMA(Fast), PPO, CCI, OBV as documented; over exact reals FastStochastic is the formula on the least/greatest "
+         "of exactly the last min(t,n) prices. ROC, ER, MFI formulas and all rounding components: T2 against the exact-rational instance with exact "
+         "condition numbers (partial).",
+         "Rocq proofs (stream induction; order-theoretic window characterisation) + bit-exact correspondence + exact-rational check with condition numbers"),
+ "C07": ("Theorems over exact reals (slack 0): FastStochastic in [0,100] on every finite stream; RSI in [0,100] whenever its denominator is non-zero (NaN "
+         "exactly otherwise); SlowStochastic in [0,100]. EfficiencyRatio and MFI ranges and the rounding slack: range predicate on the implementation (partial).",
+         "Rocq proofs (convexity of the EMA recursion, order theorems) + bit-exact correspondence + range predicate on implementation outputs"),
+ "C08": ("Theorems: on a flat window MAD = 0, SD = 0, Bollinger bands collapse (exact), FastStochastic returns the literal 50, TrueRange 0. Refuted for "
+         "EfficiencyRatio, RSI, MFI, CCI by vm_compute witnesses on the float model (C08_K3..K6), replayed on the implementation and listed as known "
+         "findings; every other degenerate-window failure is a violation.",
+         "Rocq proofs + vm_compute refutation witnesses + flat-stretch enumeration on the implementation with known-finding classification"),
+ "C09": ("Theorems: MACD/PPO histogram = line - signal for every number type (no slack); Minimum <= Maximum for any order; over exact reals SD, MAD >= 0 and "
+         "never NaN, BB lower <= average <= upper for multiplier >= 0, SMA/WMA within the range of their window, EMA within the range of its history, "
+         "TrueRange >= 0 for low <= high. KC/CE orderings and float slack: predicate on the implementation (partial).",
+         "Rocq proofs (convexity, sums of squares) + bit-exact correspondence + ordering predicates on implementation outputs"),
+ "C14": ("Theorems over exact reals: SMA, WMA, SD, MAD, EMA outputs scale by c; SMA, EMA shift by d; for every number type whose negation reverses the "
+         "comparison Maximum(x) = -Minimum(-x) exactly. Remaining indicators and the float tolerances: pairwise comparison of implementation runs (partial).",
+         "Rocq proofs (homogeneity of the specifications; simulation for Max/Min) + bit-exact correspondence + scaled/shifted run comparison on the implementation"),
  "C04": ("Theorems for every number type: reset of any reachable state equals the constructor's state as a record for the 17 indicators without "
          "Minimum/Maximum inside (C04_reset_is_new), keeps parameters, is idempotent and a no-op on fresh instances; Minimum/Maximum reset is "
          "observationally equal to new on every continuation for every strict total order with top (C04_min_reset_equiv, C04_max_reset_equiv). "
